@@ -221,6 +221,26 @@ def ring_image(w, P):
 
 
 def run_signal_case(case):
+    # A SIGINT that python turns into KeyboardInterrupt inside a gc callback / __del__ of the harness or of
+    # Hypothesis is printed as "Exception ignored" and lost; the engine then never sees it.  Collection is switched
+    # off for the case, and a run that is still going after the guard is repeated: only a signal that is not
+    # honoured three times in a row is reported (a lost signal is a harness event, an ignored one is a defect).
+    import gc
+    was = gc.isenabled()
+    gc.disable()
+    try:
+        r = None
+        for _attempt in range(3):
+            r = _run_signal_case(case)
+            if not (isinstance(r, Violation) and r.key.endswith(':exception') and 'EngineTimeout' in r.detail.get('exc', '')):
+                return r
+        return r
+    finally:
+        if was:
+            gc.enable()
+
+
+def _run_signal_case(case):
     w, P = case['w'], case['P']
     segs, data_word0 = ring_image(w, P)
     path = engines.tmpdir() / 'c18s.fjm'
